@@ -207,30 +207,37 @@ func (n *Node) ToB6() b6.Expression {
 	panic("bad node")
 }
 
-func queryToks(q b6.Query, out []string) []string {
+func queryToks(q b6.Query, out []string) []string { return queryToksWith(q, out, func(s string) string { return "s:" + s }) }
+
+// in values, strings can hold any bytes (reflect converts an int argument to a rune string): hex
+func queryValueToks(q b6.Query, out []string) []string {
+	return queryToksWith(q, out, func(s string) string { return fmt.Sprintf("x:%x", s) })
+}
+
+func queryToksWith(q b6.Query, out []string, str func(string) string) []string {
 	switch q := q.(type) {
 	case b6.Keyed:
-		return append(out, "(", "keyed", "s:"+q.Key, ")")
+		return append(out, "(", "keyed", str(q.Key), ")")
 	case b6.Tagged:
-		return append(out, "(", "tagged", "s:"+q.Key, "s:"+q.Value.String(), ")")
+		return append(out, "(", "tagged", str(q.Key), str(q.Value.String()), ")")
 	case b6.Typed:
-		out = append(out, "(", "typed", "s:"+q.Type.String())
-		out = queryToks(q.Query, out)
+		out = append(out, "(", "typed", str(q.Type.String()))
+		out = queryToksWith(q.Query, out, str)
 		return append(out, ")")
 	case b6.Intersection:
 		out = append(out, "(", "and")
 		for _, qq := range q {
-			out = queryToks(qq, out)
+			out = queryToksWith(qq, out, str)
 		}
 		return append(out, ")")
 	case b6.Union:
 		out = append(out, "(", "or")
 		for _, qq := range q {
-			out = queryToks(qq, out)
+			out = queryToksWith(qq, out, str)
 		}
 		return append(out, ")")
 	}
-	return append(out, "(", "other", fmt.Sprintf("s:%T", q), ")")
+	return append(out, "(", "other", str(fmt.Sprintf("%T", q)), ")")
 }
 
 // ExprText renders a real expression tree in the same text form (used on Simplify's output).
@@ -286,7 +293,8 @@ func wrapDiv(a, b int) int {
 func Functions() api.FunctionSymbols {
 	real := functions.Functions()
 	return api.FunctionSymbols{
-		"add": func(c *api.Context, a int, b int) (int, error) { return a + b, nil },
+		"zero": func(c *api.Context) (int, error) { return 0, nil },
+		"add":  func(c *api.Context, a int, b int) (int, error) { return a + b, nil },
 		"sub": func(c *api.Context, a int, b int) (int, error) { return a - b, nil },
 		"div": func(c *api.Context, a int, b int) (int, error) {
 			if b == 0 {
@@ -339,10 +347,66 @@ func valueToks(v interface{}, out []string) []string {
 		return append(out, ")")
 	case b6.Query:
 		out = append(out, "(", "q")
-		out = queryToks(x, out)
+		out = queryValueToks(x, out)
 		return append(out, ")")
 	}
 	return append(out, fmt.Sprintf("o:%T:", v))
+}
+
+// FlattenQuery is the canonical form in which query *values* are compared by C22: nested
+// intersections / unions spliced into their parent, also under Typed (lean: B6.Model.Query.canon).
+func FlattenQuery(q b6.Query) b6.Query {
+	switch q := q.(type) {
+	case b6.Intersection:
+		out := b6.Intersection{}
+		for _, sub := range q {
+			if f, ok := FlattenQuery(sub).(b6.Intersection); ok {
+				out = append(out, f...)
+			} else {
+				out = append(out, FlattenQuery(sub))
+			}
+		}
+		return out
+	case b6.Union:
+		out := b6.Union{}
+		for _, sub := range q {
+			if f, ok := FlattenQuery(sub).(b6.Union); ok {
+				out = append(out, f...)
+			} else {
+				out = append(out, FlattenQuery(sub))
+			}
+		}
+		return out
+	case b6.Typed:
+		return b6.Typed{Type: q.Type, Query: FlattenQuery(q.Query)}
+	}
+	return q
+}
+
+// OutcomeFlat is Outcome with query values flattened (at any depth inside pairs).
+func OutcomeFlat(e b6.Expression) (ans string) {
+	defer func() {
+		if r := recover(); r != nil {
+			ans = "panic"
+		}
+	}()
+	v, err := api.Evaluate(e, NewContext())
+	if err != nil {
+		return "err"
+	}
+	return "val " + strings.Join(valueToks(flattenValue(v), nil), " ")
+}
+
+func flattenValue(v interface{}) interface{} {
+	switch x := v.(type) {
+	case api.Callable:
+		return v
+	case api.Pair:
+		return api.AnyAnyPair{flattenValue(x.First()), flattenValue(x.Second())}
+	case b6.Query:
+		return FlattenQuery(x)
+	}
+	return v
 }
 
 // Outcome evaluates with the real VM and renders "val <v>" | "err" | "panic".
